@@ -187,7 +187,7 @@ class Frame(object):
         self.metadata = self.get_params()
 
     @classmethod
-    def from_data(cls, df, dt, fch1, ascending, data, metadata={}, waterfall=None, seed=None):
+    def from_data(cls, df, dt, fch1, ascending, data, metadata={}, waterfall=None, seed=None, **kwargs):
         """
         Initialize Frame more directly from 2D numpy array of data.
         
@@ -216,6 +216,8 @@ class Frame(object):
             (accessed via ``frame.get_waterfall()``) or a blimpy waterfall object
         seed : None, int, Generator, optional
             Random seed or seed generator
+        **kwargs
+            Passed on to the constructor, e.g. ``t_start`` or ``mjd``, ``source_name``
             
         Returns
         -------
@@ -230,7 +232,8 @@ class Frame(object):
                     fch1=fch1,
                     ascending=ascending,
                     data=data,
-                    seed=seed)
+                    seed=seed,
+                    **kwargs)
         frame.add_metadata(metadata)
 
         # Remove h5 object, which can't be pickled
